@@ -71,7 +71,8 @@ theorem month_resolution (fy fm fd : Int) (wd : Bool) (p : PartialDate) (ov : Ov
 
 theorem withFallback_ok (p : PartialDate) (fy fm fd : Int) (hr : 1 ≤ fm ∧ fm ≤ 12) :
     ∃ mm cc, p.withFallback fy fm fd true =
-      .ok ⟨some (p.year.getD fy), mm, cc, some (p.day.getD fd), p.era, p.eraYear⟩ := by
+      .ok ⟨(if p.year.isSome ∨ p.era ∨ p.eraYear.isSome then p.year else some fy), mm, cc, some (p.day.getD fd),
+        p.era, p.eraYear⟩ := by
   obtain ⟨y, pm, pc, d, pera, pey⟩ := p
   unfold PartialDate.withFallback
   cases pm <;> cases pc <;> simp only [Out.bind_ok, Out.pure_eq_ok, if_true]
